@@ -63,14 +63,19 @@ def run(tier, seed, replay=None):
     # ---- the C++ rank selection, exercised through round_this?  (not exported separately): compared through dmrg/solve below.
     for i in range(n):
         which = rng.choice(["amen_solve", "amen_solve", "fast_matvec", "fast_matvec"]) if i >= 8 else "fast_matvec"
+        if i in (8, 10): which = "fast_matvec"
+        if i in (9, 11): which = "amen_solve"
         sd = rng.randrange(1 << 30)
         if which == "amen_solve":
             A, b, N, kind = c12.gen_system(rng, torch, torchtt)
             eps = rng.choice([1e-10, 1e-8, 1e-6, 1e-4, 1e-3])
             prec = rng.choice([None, "c", "r"])
             guess = solverkit.rand_tt_float(rng, N, solverkit.ranks(rng, len(N), 3), dt) if rng.random() < 0.4 else None
-            desc = {"routine": which, "N": N, "family": kind, "eps": eps, "preconditioner": prec, "guess": guess is not None, "torch_seed": sd}
-            key = "amen_solve %s prec=%s" % (kind, prec)
+            # local solver settings: default (dense local solves for these sizes) or forced GMRES with short cycles, so that restarts happen
+            lk = rng.choice([{}, {}, {"max_full": 0}, {"max_full": 0, "local_iterations": rng.choice([4, 6, 10]), "resets": rng.choice([6, 10])}])
+            if i in (9, 11): lk = {"max_full": 0, "local_iterations": 6, "resets": 10}
+            desc = {"routine": which, "N": N, "family": kind, "eps": eps, "preconditioner": prec, "guess": guess is not None, "torch_seed": sd, "local": lk}
+            key = "amen_solve %s prec=%s%s" % (kind, prec, " gmres-restarts" if "resets" in lk else (" gmres" if lk else ""))
             ops = {"A": A, "b": b}
             if guess is not None: ops["guess"] = guess
             snaps = {k: history.Snap(v) for k, v in ops.items()}
@@ -78,7 +83,7 @@ def run(tier, seed, replay=None):
             try:
                 for name, flag in (("cpp", True), ("python", False)):
                     torch.manual_seed(sd)
-                    x = torchtt.solvers.amen_solve(A, b, x0=guess, eps=eps, nswp=40, preconditioner=prec, verbose=False, use_cpp=flag)
+                    x = torchtt.solvers.amen_solve(A, b, x0=guess, eps=eps, nswp=40, preconditioner=prec, verbose=False, use_cpp=flag, **lk)
                     if history.wf_failures(x) or [int(v) for v in x.N] != N: V.fail("amen_solve[%s]: result has the wrong shape" % name, desc); raise StopIteration
                     Af = A.full().reshape(int(np.prod(N)), -1)
                     res[name] = (x, float((Af @ x.full().reshape(-1) - b.full().reshape(-1)).norm() / b.full().norm()))
@@ -103,8 +108,11 @@ def run(tier, seed, replay=None):
             eps = rng.choice([1e-12, 1e-10, 1e-8, 1e-6, 1e-4, 1e-2])
             if i < 8: eps = eps_forced
             guess = solverkit.rand_tt_float(rng, M, solverkit.ranks(rng, d, 2), dt) if rng.random() < 0.4 else None
-            desc = {"routine": which, "N": N, "M": M, "eps": eps, "guess": guess is not None, "torch_seed": sd, "scale": scale}
-            key = "fast_matvec" + ("" if scale == 1.0 else " scaled")
+            nswp = 40
+            if i >= 8 and rng.random() < 0.3 or i in (8, 10):      # warm start (the product itself) with a sweep budget that is used up
+                guess = (A @ x).round(1e-13); nswp = rng.choice([1, 2, 3])
+            desc = {"routine": which, "N": N, "M": M, "eps": eps, "guess": guess is not None, "torch_seed": sd, "scale": scale, "nswp": nswp}
+            key = "fast_matvec" + ("" if scale == 1.0 else " scaled") + (" warm-start nswp<=3" if nswp != 40 else "")
             ops = {"A": A, "x": x}
             if guess is not None: ops["guess"] = guess
             snaps = {k: history.Snap(v) for k, v in ops.items()}
@@ -113,7 +121,7 @@ def run(tier, seed, replay=None):
             try:
                 for name, flag in (("cpp", True), ("python", False)):
                     torch.manual_seed(sd)
-                    y = A.fast_matvec(x, eps=eps, initial=guess, nswp=40, use_cpp=flag)
+                    y = A.fast_matvec(x, eps=eps, initial=guess, nswp=nswp, use_cpp=flag)
                     if history.wf_failures(y) or [int(v) for v in y.N] != M: V.fail("fast_matvec[%s]: result has the wrong shape" % name, desc); raise StopIteration
                     ys[name] = float((y.full() - ex).norm())
                     if ys[name] > 30.0 * eps * nrm + 1e-11 * nrm: V.fail("fast_matvec[%s]: error exceeds 30*eps" % name, dict(desc, rel_err=ys[name] / nrm))
